@@ -597,9 +597,13 @@ CancelDeliver(r) ==
         /\ pc' = [pc EXCEPT ![r] = "leave"]
         /\ UNCHANGED cstr
      \/ /\ pc[r] = "tls"             \* cancelled on the open stream: flag, and the stream is closed
-        /\ cst' = [cst EXCEPT ![asg[r]] = "failed"]
-        /\ \/ cstr' = [cstr EXCEPT ![asg[r]] = "closed"]
-           \/ Dev("CancelInEstabLeaksStream") /\ UNCHANGED cstr
+        /\ \/ /\ cst' = [cst EXCEPT ![asg[r]] = "failed"]
+              /\ \/ cstr' = [cstr EXCEPT ![asg[r]] = "closed"]
+                 \/ Dev("CancelInEstabLeaksStream") /\ UNCHANGED cstr
+           \/ \* DEVIATION CancelAtGateLeavesNew inside a proxy leg: the connection TO THE PROXY was
+              \* cancelled at its state lock before the CONNECT request was sent; the tunnel
+              \* object reports CONNECTING for ever, the stream to the proxy stays open
+              Dev("CancelAtGateLeavesNew") /\ UNCHANGED <<cst, cstr>>
         /\ pc' = [pc EXCEPT ![r] = "leave"]
      \/ /\ pc[r] = "gate"            \* at the state lock, before the ACTIVE gate
         /\ UNCHANGED cstr
